@@ -1,10 +1,13 @@
 #!/usr/bin/env python3
 """Builds seeded/<id>/meta.json from the author's meta (meta.agent.json) and the evaluation log (eval.log)."""
-import json, os, re, subprocess, glob
+import json, os, re, subprocess, glob, sys
+ONLY = set(sys.argv[1:])  # optional: only these ids
 base = subprocess.run(["git","-C","/repo","rev-parse","--short","HEAD"],capture_output=True,text=True).stdout.strip()
 rows=[]
 for d in sorted(glob.glob('/verif/seeded/C*-*')):
     idn=os.path.basename(d)
+    if ONLY and idn not in ONLY:
+        continue
     a=json.load(open(d+'/meta.agent.json')) if os.path.exists(d+'/meta.agent.json') else {}
     log=open(d+'/eval.log').read() if os.path.exists(d+'/eval.log') else ''
     checks={}
